@@ -42,6 +42,7 @@ import Bmc.Proofs.EndToEnd.DecodeC07
 import Bmc.Proofs.EndToEnd.DecodeSetupC07
 import Bmc.Proofs.EndToEnd.ReuseC17
 import Bmc.Proofs.EndToEnd.ReceiverC17
+import Bmc.Proofs.EndToEnd.HistoryC17
 #print axioms Bmc.Proofs.C17.deviceID_reuse
 #print axioms Bmc.Proofs.C17.chassis_reuse
 #print axioms Bmc.Proofs.C17.message_reuse
@@ -163,3 +164,5 @@ import Bmc.Proofs.EndToEnd.ReceiverC17
 #print axioms Bmc.Proofs.EndToEnd.generated_SessionSelector_ignores_receiver
 #print axioms Bmc.Proofs.EndToEnd.generated_V1Session_ignores_receiver
 #print axioms Bmc.Proofs.EndToEnd.generated_Message_ignores_receiver
+#print axioms Bmc.Proofs.EndToEnd.generatedResults_eq
+#print axioms Bmc.Proofs.EndToEnd.generated_history_ignores_what_the_connection_holds
